@@ -5,6 +5,7 @@ import I18n.Driver.CFmt
 import I18n.Driver.Tags
 import I18n.Driver.Date
 import I18n.Driver.Locale
+import I18n.Driver.PyFmt
 /- Line-protocol driver: `<model> <op> <args…>` per line on stdin, one canonical line per op on stdout. -/
 open I18n.Driver
 
@@ -17,6 +18,7 @@ def step (line : String) : String :=
   | "tags" :: op :: args => Tags.handle op args
   | "date" :: op :: args => Date.handle op args
   | "locale" :: op :: args => Locale.handle op args
+  | "pyfmt" :: op :: args => PyFmt.handle op args
   | _ => "bad-op"
 
 partial def loop (h : IO.FS.Stream) (out : IO.FS.Stream) : IO Unit := do
